@@ -168,7 +168,9 @@ func (r *runner) runCorpus(dir string) {
 						p.skipRead = true
 					}
 				}
-				w.commitPrepared(adb, touched, p)
+				if res := hx.Guard(func() string { w.commitPrepared(adb, touched, p); return "" }); res != "" {
+					r.violate("panic-in-commit-path", "panic while committing or re-reading a state: "+res)
+				}
 				adb = nil
 				snaps = nil
 			default:
